@@ -3,7 +3,7 @@
 # Confirms the seeded change in its scratch worktree (suite passes with it, demo fails with it, demo passes without
 # it), runs the given quick checks against it in /repo, reverts, and stores it under /verif/seeded/<PROP>-<x>/.
 P=$1; X=$2; CHECKS=$3
-WT=/tmp/seed_$P; case "$X" in c|d) WT=/tmp/seed2_$P;; e|f) WT=/tmp/seed3_$P;; g|h) WT=/tmp/seed4_$P;; esac; OUT=$WT/_out/$X; DST=/verif/seeded/$P-$X
+WT=/tmp/seed_$P; case "$X" in c|d) WT=/tmp/seed2_$P;; e|f) WT=/tmp/seed3_$P;; g|h) WT=/tmp/seed4_$P;; i|j) WT=/tmp/seed5_$P;; esac; OUT=$WT/_out/$X; DST=/verif/seeded/$P-$X
 if [ -f $OUT/patch.diff ]; then
   mkdir -p $DST; cp $OUT/patch.diff $OUT/demo.rs $DST/; cp $OUT/README.md $DST/README.md 2>/dev/null
 elif [ -f $DST/patch.diff ]; then
